@@ -39,7 +39,7 @@ def make_engine():
 
 # --------------------------------------------------------------------------------------------- ridges
 def ridge_bounds(**kw):
-    b = {"MapH": 46, "MapW": 64, "Dss": [1, 2, 4], "Rows": [8, 24, 39], "X0s": [3, 12], "Lens": [0, 30]}
+    b = {"MapH": 46, "MapW": 64, "Dss": [1, 2, 4], "Rows": [8, 24, 39], "X0s": [3, 12], "Lens": [0, 30], "Dys": [0]}
     b.update(kw)
     return b
 
@@ -47,7 +47,7 @@ def ridge_bounds(**kw):
 def tla_constants(b=None, mode="ridges", variant="ok", max_h=5, max_w=7):
     b = b or ridge_bounds()
     return {"Mode": mode, "Variant": variant, "MaxH": max_h, "MaxW": max_w, "MapH": b["MapH"], "MapW": b["MapW"],
-            "Dss": set(b["Dss"]), "Rows": set(b["Rows"]), "X0s": set(b["X0s"]), "Lens": set(b["Lens"])}
+            "Dss": set(b["Dss"]), "Rows": set(b["Rows"]), "X0s": set(b["X0s"]), "Lens": set(b["Lens"]), "Dys": set(b.get("Dys", [0]))}
 
 
 def enumerate_ridge_cases(b):
@@ -55,7 +55,7 @@ def enumerate_ridge_cases(b):
     rows = sorted(b["Rows"])
     options = [(0, 0)] + [(x0, ln) for x0 in b["X0s"] for ln in b["Lens"]]
     out = []
-    for k, ds, ep, rm in itertools.product(range(4), b["Dss"], (False, True), (False, True)):
+    for k, ds, ep, rm, dy in itertools.product(range(4), b["Dss"], (False, True), (False, True), b.get("Dys", [0])):
         for ch in itertools.product(options, repeat=len(rows)):
             if all(o == (0, 0) for o in ch):
                 continue
@@ -66,7 +66,9 @@ def enumerate_ridge_cases(b):
                 ln = short_len(ep) if o[1] == 0 else o[1]
                 if o[0] + ln - 1 > b["MapW"] - 1:
                     ok = False
-                ridges.append({"y": y, "x0": o[0], "x1": o[0] + ln - 1, "a2": asc2(y), "d2": desc2(y)})
+                if dy != 0 and not (y + dy <= b["MapH"] - 4 and ln >= 2 * dy):
+                    ok = False
+                ridges.append({"y": y, "x0": o[0], "x1": o[0] + ln - 1, "a2": asc2(y), "d2": desc2(y), "dy": dy})
             if ok:
                 out.append({"mode": "ridges", "k": k, "ds": ds, "ep": ep, "rm": rm, "ridges": ridges, "mh": b["MapH"], "mw": b["MapW"]})
     return out
@@ -75,17 +77,19 @@ def enumerate_ridge_cases(b):
 def render(mh, mw, ridges, ep):
     """maps with channels (ascender, descender, baseline, end points, region separators): Gaussian-profile ridges"""
     m = np.zeros((mh, mw, 5), np.float32)
-    yy = np.arange(mh)[:, None]
+    yy = np.arange(mh)[:, None].astype(np.float64)
     for r in ridges:
-        y, x0, x1 = r["y"], r["x0"], r["x1"]
-        prof = np.exp(-0.5 * (yy - y) ** 2.0).astype(np.float32)
+        y, x0, x1, dy = r["y"], r["x0"], r["x1"], r.get("dy", 0)
+        xs = np.arange(x0, x1 + 1)
+        yc = y + (xs - x0) * (dy / float(max(1, x1 - x0)))           # ridge centre per column (flat ridge: dy = 0)
+        prof = np.exp(-0.5 * (yy - yc[None, :]) ** 2.0).astype(np.float32)
         m[:, x0:x1 + 1, 2] = np.maximum(m[:, x0:x1 + 1, 2], prof)
-        band = np.abs(yy - y) <= 3
+        band = np.abs(yy - yc[None, :]) <= 3
         m[:, x0:x1 + 1, 0] = np.where(band, r["a2"] / 2.0, m[:, x0:x1 + 1, 0])
         m[:, x0:x1 + 1, 1] = np.where(band, r["d2"] / 2.0, m[:, x0:x1 + 1, 1])
         if ep:
-            for xe in (x0, x1):
-                m[max(0, y - 2):y + 3, max(0, xe - 1):xe + 2, 3] = 1.0
+            for xe, ye in ((x0, y), (x1, y + dy)):
+                m[max(0, ye - 2):ye + 3, max(0, xe - 1):xe + 2, 3] = 1.0
     return m
 
 
